@@ -126,3 +126,17 @@ def classify_token(tok):
             'baddate': 'numtriple', 'version': 'numtriple',
             'olddate': 'numtriple', 'nodate': 'numtriple',
             'time': 'time'}.get(tok, 'text')
+
+
+_PRIORITY = ['tmpdir', 'cwd', 'home', 'host', 'user', 'date-now', 'time',
+             'numtriple']
+
+
+def leading_class(toks):
+    """one class for a whole stream / file: the most environment-dependent
+    token class present ('-' when all lines are plain text)"""
+    cl = set(classify_token(t) for t in (toks or []))
+    for c in _PRIORITY:
+        if c in cl:
+            return c
+    return '-'
